@@ -68,7 +68,7 @@ CHECKS["C02"] = dict(
     assumptions=["DiffContent (byte comparison of real files) is outside the claim", "edit histories are reduced to arbitrary (old,new) pairs: the diff keeps no state between runs"],
     obligations=[
         ob("VH_C02_samefile", {}, covers=["identical", "different"], bounds="all field values; linknames of 0..2 bytes"),
-        ob("VH_C02_resync", dict(NONE=0), covers=["differ-metadata", "unchanged", "listing-name-file"], bounds="model FS: source {d, d/f, e, l, optionally a root file named .fsutil-metadata}; first transfer, one of 9 mutations of the source (none, rewrite same/other size, touch, chmod to a symbolic mode, chown to a symbolic uid, delete, file->dir, chmod of a directory), second transfer", max_steps=5000000),
+        ob("VH_C02_resync", dict(NONE=0), covers=["differ-metadata", "unchanged", "listing-name-file"], bounds="model FS: source {d, d/f, e, l, optionally a root file named .fsutil-metadata}; first transfer, one of 14 mutations of the source (none, rewrite same/other size, touch, chmod to a symbolic mode, chown to a symbolic uid, delete, file->dir, chmod of a directory, touch or retarget of a symlink, rewrite or chgrp of a nested file, new file), second transfer", max_steps=5000000),
         ob("VH_C02_resync", dict(NONE=1), covers=["differ-none"], bounds="the same with differencing disabled", max_steps=5000000),
     ],
 )
